@@ -19,6 +19,7 @@ def groups(tier):
     gs = [{'name': 'order-L%d' % L, 'fn': order_group, 'args': {'L': L}},
           {'name': 'laws-L%d' % min(L, 4), 'fn': laws_group, 'args': {'L': min(L, 4)}},
           {'name': 'hash-L%d' % min(L, 4), 'fn': hash_group, 'args': {'L': min(L, 4)}}]
+    gs.append({'name': 'identifier', 'fn': ident_group, 'args': {}})
     if tier != 'quick':
         gs.append({'name': 'order-L1', 'fn': order_group, 'args': {'L': 1}})
         gs.append({'name': 'kani-k4', 'fn': kani_group, 'args': {}, 'timeout_s': 1200})
@@ -128,3 +129,24 @@ def kani_group(s):
     goal = AND(ba.tag == 2 - ab.tag, e == (ab.tag == 1), z3.Implies(AND(ab.tag != 2, bc.tag != 2), ac.tag != 2))
     status, _, _ = h.check(h.wf, goal)
     kani.cross_check(s, 'k4_cmp_laws', status == 'unsat', 'Version::cmp antisymmetric, == iff Equal, transitive (three versions)')
+
+
+def ident_group(s):
+    """the derived Identifier impls, independent of any list length: with the slice-ordering model (lexicographic extension) these
+    are what carries the list-bounded obligations above to identifier lists of any length (the extension step is the textbook
+    argument, not machine-checked here)"""
+    from ..values import fresh
+    h = s.harness(L=1)
+    wf = []
+    x, y, z = fresh(h.I, 'x', wf), fresh(h.I, 'y', wf), fresh(h.I, 'z', wf)
+    h.wf += wf
+    fc, fe, fp = h.fn('Identifier', 'Ord', 'cmp'), h.fn('Identifier', 'PartialEq', 'eq'), h.fn('Identifier', 'PartialOrd', 'partial_cmp')
+    xy, yx, yz, xz = h.call(fc, x, y), h.call(fc, y, x), h.call(fc, y, z), h.call(fc, x, z)
+    e = h.call(fe, x, y).t
+    pc = h.call(fp, x, y)
+    lt, eq = O.ident_lt_eq(x, y)
+    want = z3.If(lt, bv(0, 8), z3.If(eq, bv(1, 8), bv(2, 8)))
+    s.cover(h, 'numeric vs alphanumeric identifier', [x.tag == 0, y.tag == 1])
+    s.prove(h, 'Identifier::cmp: numeric below alphanumeric, numerics by value, alphanumerics by string order', [], xy.tag == want)
+    s.prove(h, 'Identifier: == iff cmp is Equal; partial_cmp == Some(cmp)', [], AND(e == (xy.tag == 1), is_variant(pc, 'Some'), payload(pc, 'Some')[0].tag == xy.tag))
+    s.prove(h, 'Identifier::cmp is antisymmetric and transitive', [], AND(yx.tag == 2 - xy.tag, z3.Implies(AND(xy.tag != 2, yz.tag != 2), xz.tag != 2)))
